@@ -160,7 +160,7 @@ static void do_op(Cmd *c) {
         if (st != CC_OK) tt = NULL;
         o_stat(st); o(" ");
     } else if (is_op(c, "new_default")) {
-        tt = NULL; it_valid = 0; default_mode = 1;
+        tt = NULL; it_valid = 0;   /* C-library allocator: reported in the libc columns */
         enum cc_stat st = cc_tsttable_new(&tt); if (st != CC_OK) tt = NULL; o_stat(st); o(" ");
     } else if (!tt) { o("st=- nosession"); o_sep(); o("-"); return;
     } else if (is_op(c, "add") && key) {
